@@ -26,8 +26,9 @@ func Stop(c chan<- os.Signal) {
 func Deliver(sig os.Signal) int {
 	n := 0
 	for _, x := range append([]any(nil), S.sigChans...) {
-		Select(true, CaseSend(x.(chan<- os.Signal), sig))
-		n++
+		if Select(true, CaseSend(x.(chan<- os.Signal), sig)) >= 0 {
+			n++ // enqueued (os/signal drops the signal when the channel is full)
+		}
 	}
 	return n
 }
